@@ -6,13 +6,14 @@ TIER=${1:-quick}
 cd "$(dirname "$0")/.." || exit 2
 WT=$(mktemp -d /tmp/seedall.XXXXXX); rmdir $WT
 git -C /repo worktree add -q --detach $WT HEAD || exit 2
-trap 'git -C /repo worktree remove --force $WT; git -C /repo worktree prune' EXIT
+trap 'git -C /repo worktree remove --force $WT; git -C /repo worktree prune; rm -f $LOG' EXIT
 fail=0
+LOG=$(mktemp /tmp/seedall_log.XXXXXX)
 run() { # <patch> <property> <label>
   ( cd $WT && git apply "$1" ) || { echo "$3: patch does not apply"; fail=1; return; }
   out=$(VERIF_REPO=$WT timeout 3000 python3 tools/vcheck.py $2 $TIER 2>&1); rc=$?
   v=$(echo "$out" | grep -E '^VIOLATION' | head -1)
-  if [ $rc -eq 1 ] && [ -n "$v" ] && ! echo "$v" | grep -q no-failing-input-found; then echo "caught  $3 by $2"; else echo "MISSED  $3 by $2 (exit=$rc) $v"; fail=1; fi
+  if [ $rc -eq 1 ] && [ -n "$v" ] && ! echo "$v" | grep -q no-failing-input-found; then echo "caught  $3 by $2" | tee -a $LOG; else echo "MISSED  $3 by $2 (exit=$rc) $v" | tee -a $LOG; fail=1; fi
   ( cd $WT && git checkout -q -- . )
 }
 for d in seeded/C*/; do
@@ -28,4 +29,4 @@ while read f p; do run "$PWD/seeded/reverts/revert_$f.diff" $p "revert_$f"; done
 rm -f /tmp/seedall_reverts.$$
 # the unchanged worktree must be clean for one property as a sanity check of the VERIF_REPO route
 out=$(VERIF_REPO=$WT python3 tools/vcheck.py C15 quick 2>&1); [ $? -eq 0 ] || { echo "UNCHANGED worktree reported: $out" | tail -2; fail=1; }
-exit $fail
+echo "$(date -u +%FT%TZ) tier=$TIER: $(grep -c "^caught" $LOG) caught, $(grep -c "^MISSED" $LOG) missed" > seeded/REGRESSION.txt; grep "^MISSED" $LOG >> seeded/REGRESSION.txt; exit $fail
